@@ -8,7 +8,7 @@ SEQ_CONSTS = dict(Keys={1, 2}, Vals={"x"}, MaxOps=5, Base=0,
                   ExpKinds={"zero", "cur", "stale", "fut"},
                   OpKinds={"create", "update", "delete", "compact"},
                   CompactKinds={"zero", "cur-1", "old", "above"},
-                  EventKeys=set(), Expiry=False, GenHist=False)
+                  EventKeys=set(), Expiry=False, CompactAfter=0, DelFaultKinds=set(), GenHist=False)
 
 MC_INV = {
     "C03": ["ScanIsSnapshot", "PointIsSnapshot", "IndexAgrees"],
